@@ -56,6 +56,11 @@ CHECKS = {
    note="Trusted: Coq kernel; translator; hand model Model/Literal.v of parser/linter/generator arms; lexing of spellings is proved on the lexer models (C14) and exercised end to end here. Fixed: D2 (usize mask), D9 (i128::MIN). Known finding D22. Print Assumptions: closed.",
    technique="Coq proof: materialisation = value mod 2^w and lint <-> out-of-range (with characterised exception) over translator-generated constants; exhaustive-by-boundary differential execution",
    design="5/C09"),
+ "C03": dict(
+   text="IR validity is decided by LLVM's own assembler and verifier (llvm-as, opt -passes=verify) run as independent tools on the text of every module and of the linked program, for every accepted input the generators produce: valid programs with random pub/extern flags, with and without main (never executed, so UB and non-termination are included), multi-module sets, accepted mutants of the corpus, and the wasm32 target. The part that is penne's own logic and can be proved is proved in Coq over tables regenerated from generator.rs on every run: main/pub/imported functions are externally visible, everything else private; extern functions use the C convention, others fastcc; an imported signature always matches its definition. Every source function must appear in the IR with exactly the table's linkage and convention (checked on every accepted program). The block-structure well-formedness of the control-flow lowering is being proved separately (Proofs/CfgProofs.v) and is not yet part of this claim (partial).",
+   note="Trusted: LLVM 14 tools (their verifier rules are not modelled); translator; Coq kernel. Print Assumptions: closed.",
+   technique="independent LLVM tools on all emitted IR + Coq proof over translator-generated linkage/calling-convention table + correspondence of define/declare lines",
+   design="5/C03"),
 }
 
 NOT_YET = {
